@@ -52,6 +52,25 @@ impl Encoder {
     }
 }
 
+/// Verification hook: the C API encoder object (everything behind the
+/// `extern "C"` functions except string/pointer conversion and alist parsing).
+#[cfg(feature = "verif-hooks")]
+#[derive(Debug)]
+pub struct VerifCEncoder(Encoder);
+
+#[cfg(feature = "verif-hooks")]
+impl VerifCEncoder {
+    /// Builds the C API encoder object from its parts.
+    pub fn new(encoder: LdpcEncoder, puncturer: Option<Puncturer>) -> VerifCEncoder {
+        VerifCEncoder(Encoder { encoder, puncturer })
+    }
+
+    /// What `ldpc_toolbox_encoder_encode` runs after converting its pointers.
+    pub fn encode(&self, output: &mut [u8], input: &[u8]) {
+        self.0.encode(output, input)
+    }
+}
+
 #[unsafe(no_mangle)]
 unsafe extern "C" fn ldpc_toolbox_encoder_ctor(
     alist_file_path: *const c_char,
